@@ -148,10 +148,11 @@ type caseRun struct {
 	dir  string
 	blob *rig.Blob
 
-	clk   *clock.Mock
-	vnow  atomic.Int64 // virtual time in ticks (whole intervals)
-	S, L  *side
-	wgate *rig.Gate
+	clk     *clock.Mock
+	vnow    atomic.Int64 // virtual time in ticks (whole intervals)
+	S, L    *side
+	wgate   *rig.Gate
+	tracker *rig.Tracker
 
 	mu           sync.Mutex
 	served       int   // piece readers closed on S
@@ -188,6 +189,7 @@ func cfg(seederTTI, leecherTTI time.Duration) scheduler.Config {
 
 func (cr *caseRun) setup(tracker *rig.Tracker) error {
 	tl := cr.tl
+	cr.tracker = tracker
 	cr.clk = clock.NewMock()
 	cr.wgate = rig.NewGate()
 	cr.wgate.Hold("write")
@@ -256,6 +258,10 @@ func (cr *caseRun) setup(tracker *rig.Tracker) error {
 }
 
 func (cr *caseRun) teardown() {
+	defer func() {
+		cr.tracker.Forget(cr.S.peer.Pctx.PeerID)
+		cr.tracker.Forget(cr.L.peer.Pctx.PeerID)
+	}()
 	cr.wgate.ReleaseAll()
 	cr.S.peer.Close()
 	cr.L.peer.Close()
